@@ -214,12 +214,14 @@ CLAIMED["C19"] = dict(cat="proof", ref="DESIGN.md §5 C19, §12",
 CLAIMED["C20"] = dict(cat="proof", ref="DESIGN.md §5 C20, §12",
    text="Lean theorems c20_generated_conforms (for EVERY oracle standing for the library's random source — randint returns some integer of its range, random() some "
         "float, getrandbits some bytes — a datum gen_data returns conforms to the schema by Spec.conforms, the relation validate implements (C10) and the writers accept "
-        "(C01/C02); any depth, through by-name references; plain schemas whose records have distinct field names) , c20_exact_count (generate_many yields exactly n "
+        "(C01/C02); any depth, through by-name references; plain schemas whose records have distinct field names), c20_generated_validates (composed with C10's theorem: validate never answers False on a generated datum), c20_exact_count (generate_many yields exactly n "
         "values), c20_terminates_tree (on a schema without by-name references gen_data returns, whatever the oracle does: a budget of the schema's depth suffices) and "
         "c20_nontermination_counterexample (F6 as a theorem: Node{children: array<Node>} is never generated, for every oracle and every budget). Translator obligation "
         "Tables.generate_ranges: the integer ranges gen_data draws from, tabulated by RUNNING it with a recording random source on int/long x every logical annotation. "
         "Implementation: schemas of the generator incl. logical types and recursive types, n in {0,1,3}, several random seeds: count, validate, schemaless and "
-        "container write + read back; every generated value must lie in the image of the model generator (Generate.inImage) and conform by Spec.conforms.",
+        "container write + read back; every generated value must lie in the image of the model generator (Generate.inImage) and conform by Spec.conforms; recursive types with "
+        "further choice points per level; the object parse_schema returned given to the generator and then to the container writer; recursive types classified by their "
+        "mean-offspring matrix (subcritical ones must generate: a RecursionError there is a violation, not F6).",
    note="termination is proved for tree schemas only; beyond them known finding F6 (self-reference through an array or map never returns); logical types are checked on the implementation only; "
         "model==implementation observed through the image check (the random streams themselves cannot be aligned)",
    tech="Lean 4 proof over an arbitrary random oracle + image/conformance check of the implementation's values")
